@@ -1,5 +1,5 @@
 (* C18 - styled-text codecs round-trip and all SGR producers and consumers agree.
-   Statements only; proofs live in proofs/SgrProofs.v.
+   Statements only; proofs live in proofs/SgrProofs.v and proofs/SgrChar.v (predicate characterisations).
 
    Vocabulary of the statements (model/Sgr.v):
      pen            the five SGR-controlled fields of vaxis.Style (fg, bg, underline colour,
@@ -20,8 +20,31 @@
      parse_styled_string / new_styled_string / term_feed    cells and final pen read from tokens.
    Graphemes are opaque code-point lists (segmentation by uniseg is an oracle: the harness ships
    texts already segmented). Hyperlinks are outside the property: ParseStyledString drops them,
-   NewStyledString has no OSC handling and is only claimed on cells without a hyperlink. *)
-From Vx Require Import base.Prelude gen.GenSgr model.Colour model.Sgr proofs.SgrProofs.
+   NewStyledString has no OSC handling and is only claimed on cells without a hyperlink.
+
+   Vocabulary of the predicate characterisations (proofs/SgrChar.v):
+     blank_image want got   inductive: got is want with each blank cell (empty grapheme) either
+                    dropped or replaced by one space (code point 32) carrying that blank's pen,
+                    every other cell kept as it is, order kept, nothing else in got
+     fill want sel  the same as a function of one boolean choice per cell
+     subseq s l     s is an order-preserving sub-list of l;  shown_pcell c = (shown (fst c), snd c)
+     codec_roundtrip_prop / render_roundtrip_prop   the stream predicates as propositions
+
+   Stream functions registered by harness/c18 (hx.NewStream) and the theorems that cover them:
+     c18_codec_mismatches  / c18_codec_violations  / c18_codec_known
+         C18_streams_sound (list level: no mismatch -> every violation index is a known-finding index),
+         C18_model_satisfies_predicates conjunct 1 (per case: holds_gen false; holds when legacy = false;
+         holds or known always), C18_codec_predicate_means (codec_holds_gen as a proposition),
+         C18_predicates_on_model (the model's own answers satisfy it, legacy on or off)
+     c18_render_mismatches / c18_render_violations / c18_render_known
+         C18_streams_sound, C18_model_satisfies_predicates conjunct 2 (all of legacy, rgb, smulx),
+         C18_render_predicate_means, C18_predicates_on_model (all four capability combinations,
+         legacy on or off)
+     c18_sgr_mismatches    / c18_sgr_violations    (no known class)
+         C18_streams_sound (no mismatch -> no violation), C18_model_satisfies_predicates conjunct 3
+   Not proved: the tokens <-> bytes step (print_toks against the real ansi.Parser) and grapheme
+   segmentation stay in the differential run only. *)
+From Vx Require Import base.Prelude gen.GenSgr model.Colour model.Sgr proofs.SgrProofs proofs.SgrChar.
 
 (* ---- delta_correct ----
    For ALL previous and next pens over the named constants - every ordered pair of the 128
@@ -133,6 +156,70 @@ Theorem C18_cells_match : forall cs : list cell,
 Proof. intros cs; split; [apply cells_match_shown | apply cells_match_nonblank]. Qed.
 Print Assumptions C18_cells_match.
 
+(* cells_match characterised: it accepts got exactly when got is want with each blank cell either
+   dropped or replaced by one space carrying that blank's pen, in order - as an inductive relation
+   and as a function of one choice per cell *)
+Theorem C18_cells_match_characterised : forall want got : list pcell,
+  (cells_match want got = true <-> blank_image want got) /\
+  (cells_match want got = true <-> exists sel, length sel = length want /\ got = fill want sel).
+Proof. intros want got; split; [apply cells_match_iff_image | apply cells_match_iff_fill]. Qed.
+Print Assumptions C18_cells_match_characterised.
+
+(* ... and the English round-trip clause follows from it: every cell that has a grapheme comes
+   back as itself (grapheme and pen) and in order; all that comes back is, in order, cells of want
+   as they look on screen (a blank is a space with the blank's pen); each cell that comes back is
+   a cell of want with a grapheme or a space carrying the pen of a blank cell of want; and without
+   blank cells got IS want: the same graphemes with the same colours, attributes, underline style
+   and underline colour *)
+Theorem C18_cells_match_roundtrip_clause : forall want got : list pcell,
+  cells_match want got = true ->
+  subseq (filter nonblank want) got /\
+  subseq got (map shown_pcell want) /\
+  (forall c, In c want -> nonblank c = true -> In c got) /\
+  (forall c, In c got -> (In c want /\ nonblank c = true) \/ (exists p, c = ([32], p) /\ In ([], p) want)) /\
+  (forallb nonblank want = true -> got = want).
+Proof.
+  intros want got H; apply cells_match_iff_image in H.
+  destruct (image_sandwich want got H) as [S1 S2].
+  split; [exact S1|]. split; [exact S2|]. split; [|split].
+  - intros c I N; apply (subseq_In _ _ S1); apply filter_In; auto.
+  - apply image_origin; exact H.
+  - apply image_nonblank; exact H.
+Qed.
+Print Assumptions C18_cells_match_roundtrip_clause.
+
+(* the codec stream's predicate as a proposition about the observation: each decoder returned a
+   blank_image of the encoded cells and both final pens are the default pen; in particular, for
+   cells without blanks every decoder returned exactly the encoded cells *)
+Theorem C18_codec_predicate_means : forall (w legacy : bool) (cells : list cell) (o : codec_obs),
+  forallb wf_scellb cells = true ->
+  (codec_holds_gen w (legacy, cells, o) = true <-> codec_roundtrip_prop w cells o) /\
+  (codec_holds_gen w (legacy, cells, o) = true -> forallb nonblank cells = true ->
+   o_parsed o = map pcell_of cells /\ o_term o = map pcell_of cells /\
+   (forallb no_link cells = true -> o_styled o = map pcell_of cells) /\
+   o_fin_parse o = pen0 /\ o_fin_term o = pen0).
+Proof.
+  intros w legacy cells o W; split; [apply codec_holds_gen_spec; exact W|].
+  intros H N; apply (codec_holds_gen_spec w legacy cells o W) in H.
+  destruct H as [H1 [H2 [H3 [H4 H5]]]].
+  assert (N' : forallb nonblank (map pcell_of cells) = true).
+  { clear -N; induction cells as [|[g st] t IH]; [reflexivity|].
+    cbn [forallb map] in *; apply andb_prop in N as [N1 N2]; rewrite (IH N2), andb_true_r; exact N1. }
+  repeat split; try assumption.
+  - exact (image_nonblank _ _ H1 N').
+  - exact (image_nonblank _ _ H2 N').
+  - intros L; exact (image_nonblank _ _ (proj1 (H3 L)) N').
+Qed.
+Print Assumptions C18_codec_predicate_means.
+
+(* the render stream's predicate as a proposition: every consumer read every cell - a blank as
+   a space - with the pen a terminal of those capabilities must hold, and the frame ends reset *)
+Theorem C18_render_predicate_means : forall (w legacy rgb smulx : bool) (cells : list pcell) (o : render_obs),
+  forallb wf_spcellb cells = true ->
+  (render_holds_gen w ((legacy, rgb, smulx), cells, o) = true <-> render_roundtrip_prop w rgb smulx cells o).
+Proof. intros; apply render_holds_gen_spec; assumption. Qed.
+Print Assumptions C18_render_predicate_means.
+
 (* the renderer draws a blank cell as a space, after the cell's pen delta: every consumer sees
    the space with the blank cell's pen and the following cells with theirs *)
 Theorem C18_render_roundtrip_blank : forall (legacy rgb smulx : bool) (cs : list pcell),
@@ -226,20 +313,66 @@ Print Assumptions C18_parse_total.
 Theorem C18_model_satisfies_predicates :
   (forall legacy cells o, codec_model_ok (legacy, cells, o) = true ->
      codec_holds_gen false (legacy, cells, o) = true /\
-     (legacy = false -> codec_holds (legacy, cells, o) = true)) /\
+     (legacy = false -> codec_holds (legacy, cells, o) = true) /\
+     (codec_holds (legacy, cells, o) = true \/ codec_known (legacy, cells, o) = true)) /\
   (forall legacy rgb smulx cells o, render_model_ok ((legacy, rgb, smulx), cells, o) = true ->
      render_holds_gen false ((legacy, rgb, smulx), cells, o) = true /\
-     (legacy = false -> render_holds ((legacy, rgb, smulx), cells, o) = true)) /\
+     (legacy = false -> render_holds ((legacy, rgb, smulx), cells, o) = true) /\
+     (render_holds ((legacy, rgb, smulx), cells, o) = true \/ render_known ((legacy, rgb, smulx), cells, o) = true)) /\
   (forall c, sgr_model_ok c = true -> sgr_holds c = true).
 Proof.
   repeat split.
   - apply (codec_model_holds (legacy, cells, o)); assumption.
   - apply (codec_model_holds (legacy, cells, o)); assumption.
+  - apply codec_model_holds_or_known; assumption.
   - apply (render_model_holds ((legacy, rgb, smulx), cells, o)); assumption.
   - apply (render_model_holds ((legacy, rgb, smulx), cells, o)); assumption.
+  - apply render_model_holds_or_known; assumption.
   - apply sgr_model_holds; assumption.
 Qed.
 Print Assumptions C18_model_satisfies_predicates.
+
+(* the same for the functions the harness registers, on whole case lists: when the mismatch
+   function returns no index, every index the violation function returns is also returned by the
+   known-finding function (codec, render: legacy-sgr-newstyledstring), resp. there is none (sgr) *)
+Theorem C18_streams_sound :
+  (forall cases, c18_codec_mismatches cases = [] ->
+     forall k, In k (c18_codec_violations cases) -> In k (c18_codec_known cases)) /\
+  (forall cases, c18_render_mismatches cases = [] ->
+     forall k, In k (c18_render_violations cases) -> In k (c18_render_known cases)) /\
+  (forall cases, c18_sgr_mismatches cases = [] -> c18_sgr_violations cases = []).
+Proof. split; [exact codec_stream_sound | split; [exact render_stream_sound | exact sgr_stream_sound]]. Qed.
+Print Assumptions C18_streams_sound.
+
+(* the predicates on what the MODEL itself returns (no observation as hypothesis), for every cell
+   list over the named constants with blank cells anywhere: the render predicate render_holds_gen
+   holds for all four capability combinations (rgb, smulx) with the legacy quirk on or off, and
+   with NewStyledString included whenever the quirk is off or no drawn colour is an extended one;
+   likewise the codec predicate *)
+Theorem C18_predicates_on_model :
+  (forall (legacy rgb smulx : bool) (cells : list pcell),
+     Forall (fun c => wf_spcellb c = true) cells ->
+     exists parsed term,
+       parse_styled_string (render_row legacy rgb smulx cells) = Ok (parsed, pen0) /\
+       term_feed (render_row legacy rgb smulx cells) = Ok (term, pen0) /\
+       (forall out styled,
+          render_holds_gen false ((legacy, rgb, smulx), cells, mkRenderObs out parsed styled term pen0) = true) /\
+       (legacy = false \/ no_ext_render rgb smulx cells = true ->
+        exists styled, new_styled_string pen0 (render_row legacy rgb smulx cells) = Ok (styled, pen0) /\
+          forall out, render_holds ((legacy, rgb, smulx), cells, mkRenderObs out parsed styled term pen0) = true)) /\
+  (forall (legacy : bool) (cells : list cell),
+     Forall (fun c => wf_scellb c = true) cells ->
+     let got := shown_cells cells in
+     parse_styled_string (encode_cells legacy cells) = Ok (got, pen0) /\
+     term_feed (encode_cells legacy cells) = Ok (got, pen0) /\
+     new_styled_string pen0 (ss_encode cells) = Ok (got, pen0) /\
+     (forall encE encS styledE,
+        codec_holds_gen false (legacy, cells, mkCodecObs encE encS got got styledE got pen0 pen0) = true) /\
+     (legacy = false \/ no_ext_codec cells = true ->
+      new_styled_string pen0 (encode_cells legacy cells) = Ok (got, pen0) /\
+      forall encE encS, codec_holds (legacy, cells, mkCodecObs encE encS got got got got pen0 pen0) = true)).
+Proof. split; [exact render_predicate_on_model | exact codec_predicate_on_model]. Qed.
+Print Assumptions C18_predicates_on_model.
 
 (* ---- the model's tokens print as the format strings of the Go sources ----
    gen/GenSgr.v is translated from sequences.go and styled_string.go on every run: each constant
@@ -325,6 +458,27 @@ Example C18_ex_blank_cells :
   cells_match (map pcell_of cs2) [([97], spen bold); ([32], pen0); ([98], spen bold)] = true /\
   cells_match (map pcell_of cs1) [([32], spen bold); ([120], spen bold)] = false.
 Proof. split; [repeat constructor | vm_compute; repeat split; reflexivity]. Qed.
+
+(* the characterisation at work: both choices for a blank; a reader that drops a cell with a
+   grapheme, or returns the space with another pen, is not an image; the render guard
+   no_ext_render is satisfiable under the legacy quirk and refuted by an extended colour *)
+Example C18_ex_blank_image :
+  let b := mkPen (index_color 1) 0 0 0 aBold in
+  let want := [([97], b); ([], pen0); ([98], b)] in
+  fill want [false; false; false] = [([97], b); ([98], b)] /\
+  fill want [false; true; false] = [([97], b); ([32], pen0); ([98], b)] /\
+  blank_image want [([97], b); ([32], pen0); ([98], b)] /\
+  ~ blank_image want [([97], b); ([32], b); ([98], b)] /\
+  ~ blank_image want [([97], b)] /\
+  no_ext_render true true [([], b); ([120], pen0)] = true /\
+  no_ext_render true true [([], mkPen (index_color 196) 0 0 0 0)] = false /\
+  no_ext_render false true [([], mkPen (rgb_color 0 0 0) 0 0 0 0)] = false.
+Proof.
+  cbv zeta. split; [reflexivity|]. split; [reflexivity|]. split; [apply cells_match_iff_image; reflexivity|].
+  split; [intros H; apply cells_match_iff_image in H; vm_compute in H; discriminate|].
+  split; [intros H; apply cells_match_iff_image in H; vm_compute in H; discriminate|].
+  vm_compute; repeat split; reflexivity.
+Qed.
 
 (* truncated extended-colour forms return without panic; an empty sub-list (which the parser
    never delivers) is the panic the hypothesis of parse_total excludes *)
